@@ -4,9 +4,11 @@ from .engines import deque
 # part name -> (run(res, work, tier, seed), replay(rep, work))
 PARTS = {
     "deque.c15": (deque.run_c15, deque.replay),
+    "deque.c16": (deque.run_c16, deque.replay),
 }
 
 # property -> parts whose violations (filtered by property id) decide it
 PROPERTY_PARTS = {
-    "C15": ["deque.c15"],
+    "C15": ["deque.c15", "deque.c16"],
+    "C16": ["deque.c16"],
 }
